@@ -1,14 +1,14 @@
 SPECIFICATION MSpec
-CONSTANTS Kind = "channel"
+CONSTANTS Kind = "stream"
           Init_ = "c"
-          MaxElems = 1
-          Credits = {1}
+          MaxElems = 2
+          Credits = {1, 2}
           MaxGrants = 1
           HasPub = TRUE
           Slot = 0
           SidOff = 0
           AsImplemented = FALSE
-          Frag = 0
+          Frag = 10
           LibSource = TRUE
 INVARIANT NoClauseFails
 INVARIANT DeliveredIsPrefixOfHanded
